@@ -566,6 +566,8 @@ func c18Run(r *core.Run) {
 	r.Rule = "engine E: raw query text / bind parameter text / cookie text = absent, empty, EVERY byte string of length <=2 (thorough 3) over all 256 bytes, and a numeric corpus (signs, bases, overflow, 1e999, NaN, blanks) through every accessor with and without a default (queries also with the parameter name percent-escaped); cookie values of every byte string of length <=2 (thorough 3) through SetCookie -> Set-Cookie -> client -> Cookie header -> Cookie(); oracle: no panic, presence by url.ParseQuery / http.Request.Cookie, value by strconv (0 on malformed), absent or empty gives the default or zero, cookies read back byte for byte; request data read before and after a sub-request served on the same instance inside the handler (after 0..2 earlier requests) is the request's own; non-trivial = text that is present and non-numeric, or a cookie value containing a byte outside [A-Za-z0-9]"
 	r.Assumptions = []string{"net/url, net/http cookie parsing and strconv are the reference parsers (trusted)", "QueryTrim/QueryUnescape apply their conversion to the default as well; the default used (DEF) is not altered by either", "QueryStrings returns the list as parsed when the key occurs at all (a list holding one empty string is a present list)"}
 	numeric := []string{"0", "1", "-1", "+1", "007", "12345678901234567890", "-9223372036854775808", "9223372036854775807", "9223372036854775808", "0x10", "1e3", "1e999", "-1e999", "NaN", "nan", "Inf", "-inf", " 1", "1 ", "1_000", "1.5", ".5", "5.", "true", "TRUE", "t", "T", "1", "false", "F", "yes", "１", "%31", "%2B1", "+", "-", "1%001",
+		// values that still hold a percent sign once the query string is decoded (well-formed and malformed escapes)
+		"%25", "100%25", "%25zz-top", "%2541", "a%254",
 		// the parameter given several times (first value counts; the list accessor returns all), other spellings of the name
 		"a&k=b", "&k=b", "1&k=2", "&k=", "a&K=b", "a&%6b=b", "a&k", "a&k=b&k=c"}
 	bytesUpTo := func(n int) int {
